@@ -171,7 +171,7 @@ def showAct : Act → String
   | .mkdirLoose _ => "mkdirLoose" | .renameLoose k => s!"renameLoose:{k}" | .readLoose k => s!"readLoose:{k}"
   | .looseUnlink k => s!"looseUnlink:{k}"
   | .lock p => s!"lock:{p}" | .unlock p => s!"unlock:{p}" | .pkOpen p => s!"pkOpen:{p}"
-  | .pkWrite p _ => s!"pkWrite:{p}" | .pkFlush p => s!"pkFlush:{p}" | .pkFsync p => s!"pkFsync:{p}"
+  | .pkWrite p g => s!"pkWrite:{p}:{g.cid}.{b01 g.z}" | .pkFlush p => s!"pkFlush:{p}" | .pkFsync p => s!"pkFsync:{p}"
   | .pkClose p => s!"pkClose:{p}" | .pkTruncate p n => s!"pkTruncate:{p}:{n}" | .pkRead p => s!"pkRead:{p}"
   | .pkUnlink p => s!"pkUnlink:{p}" | .pkLink a b => s!"pkLink:{a}:{b}"
   | .sqlInsert r => s!"sqlInsert:{r.key}" | .sqlDelete k => s!"sqlDelete:{k}" | .sqlMove r => s!"sqlMove:{r.key}"
